@@ -34,12 +34,18 @@ def loop_spec(E, s, fr) -> tuple[int | None, LoopSpec | None]:
 
 
 def written_keys(E, before, outs):
-    keys = set()
+    """heap key -> list of object refs written by the body (None: written at unknown objects)"""
+    keys: dict = {}
     for o in outs:
         for key, arr in o.st.heap.items():
             b = E.h(before, key)
             if arr is not b and not arr.eq(b):
-                keys.add(key)
+                # the write log was emptied when the body started: it holds exactly the body's writes
+                w = o.st.writes.get(key, None) if key in o.st.writes else None
+                if w is None:
+                    keys[key] = None
+                elif keys.get(key, []) is not None:
+                    keys.setdefault(key, []).extend(w)
     return keys
 
 
@@ -50,10 +56,46 @@ def havoc_for_loop(E, st, fr, names, keys, entry, has_yield=True):
         if n in st.locals and st.locals[n].z is not None:
             v = st.locals[n]
             st.locals[n] = V(v.t, fresh("h_" + n, v.z.sort()))
+    live = None
     for key in keys:
         old = E.h(st, key)
+        objs = keys[key] if isinstance(keys, dict) else None
+        if objs is not None and key[0] not in ("alloc", "glob"):
+            # every write of the body goes to an object named by a loop-invariant term: havoc just those objects
+            if live is None:
+                live = live_constants(E, entry, fr)
+                written_arrays = set()
+                for k2 in keys:
+                    _all_consts(E.h(entry, k2), written_arrays)
+            uniq = []
+            ok = True
+            for o_ in objs:
+                acc = set()
+                _consts(o_, acc, set())
+                allc = set()
+                _all_consts(o_, allc)
+                if not acc <= live or (allc & written_arrays):
+                    ok = False
+                    break
+                if not any(o_.eq(u) for u in uniq):
+                    uniq.append(o_)
+            if ok:
+                new = old
+                cells = []
+                for o_ in uniq:
+                    cell = fresh("hlo_" + str(key[0]), old.sort().range())
+                    cells.append(cell)
+                    new = z3.Store(new, o_, cell)
+                st.heap[key] = new
+                for cell in cells:
+                    E.wf_value(st, key, cell)
+                st.note_write(key, None) if False else None
+                for o_ in uniq:
+                    st.note_write(key, o_)
+                continue
         new = fresh("hl_" + str(key[0]) + "_" + "_".join(str(x) for x in key[1:3] if not isinstance(x, T)), old.sort())
         st.heap[key] = new
+        st.note_write(key, None)
         E.loop_frame_assumption(st, fr, key, new, E.h(entry, key))
     if st.resume is not None and has_yield:
         # generator mode: the resumption snapshot of an arbitrary iteration is arbitrary too
@@ -98,6 +140,23 @@ def _consts(e, acc, seen):
                     acc.add(n)
             else:
                 stack.extend(t.children())
+
+
+def _all_consts(e, acc):
+    """names of all array-sorted uninterpreted constants (heap versions) in a term"""
+    stack, seen = [e], set()
+    while stack:
+        t = stack.pop()
+        i = t.get_id()
+        if i in seen:
+            continue
+        seen.add(i)
+        if z3.is_quantifier(t):
+            stack.append(t.body())
+        elif z3.is_app(t):
+            if t.num_args() == 0 and t.decl().kind() == z3.Z3_OP_UNINTERPRETED and t.sort().kind() == z3.Z3_ARRAY_SORT:
+                acc.add(t.decl().name())
+            stack.extend(t.children())
 
 
 def live_constants(E, st, fr):
@@ -211,22 +270,44 @@ def assume_invs(E, fr, st, spec, idxv):
 
 def discover(E, body_runner, st, fr, names, has_yield=True):
     """Fixed point of the heap keys written by the loop body (dry runs, no obligations)."""
-    keys: set = set()
+    keys: dict = {}
     E.dry += 1
     try:
         for _ in range(6):
             trial = st.copy()
             havoc_for_loop(E, trial, fr, names, keys, st, has_yield)
             saved_exc, fr.exc = fr.exc, []
+            trial.writes = {}
             before = trial.copy()
             outs = body_runner(trial, True)
             outs = outs + fr.exc
             fr.exc = saved_exc
             w = written_keys(E, before, outs)
-            # keys written inside are compared against the havoc'd state; union
-            if w <= keys:
+            changed = False
+            live = live_constants(E, st, fr)
+            for key, objs in list(w.items()):
+                if objs is not None:
+                    for o_ in objs:
+                        acc = set()
+                        _consts(o_, acc, set())
+                        if not acc <= live:
+                            w[key] = None   # written through a term that is not loop-invariant
+                            break
+            for key, objs in w.items():
+                if key not in keys:
+                    keys[key] = objs if objs is None else list(objs)
+                    changed = True
+                elif keys[key] is not None:
+                    if objs is None:
+                        keys[key] = None
+                        changed = True
+                    else:
+                        for o_ in objs:
+                            if not any(o_.eq(u) for u in keys[key]):
+                                keys[key].append(o_)
+                                changed = True
+            if not changed:
                 break
-            keys |= w
         else:
             from .engine import CheckerError
             raise CheckerError("loop write-set discovery did not converge")
